@@ -3,6 +3,7 @@ package main
 import (
 	"go/ast"
 	"strconv"
+	"strings"
 )
 
 // The nine method names of net/http (`http.MethodGet` ...). They are constants of the standard
@@ -89,10 +90,112 @@ func extractHttpd() {
 	}
 	l.printf("def routeParam : List UInt8 := %s  -- %s\n", leanBytes(rp), strconv.Quote(rp))
 	l.printf("def routeParamAny : List UInt8 := %s  -- %s\n", leanBytes(ra), strconv.Quote(ra))
+
+	// the request counter behind Store ids: width of the field, the atomic operation and its step, the base
+	// the number is written in (ServeHTTP: strconv.AppendUint(id, atomic.AddUint64(&mux.storeID, 1), 36))
+	bits, addFn, step, base := httpdIDCounter(hf)
+	l.printf("\n/-- width in bits of `Mux.storeID`, the atomic add applied to it (`%s`), its step, and the base of the id text -/\n", addFn)
+	l.printf("def storeIDBits : Nat := %d\ndef storeIDAddBits : Nat := %d\ndef storeIDStep : Nat := %d\ndef storeIDBase : Nat := %d\n", bits, httpdBitsOf(addFn), step, base)
 	l.write()
+	facts["httpd.storeID"] = map[string]any{"field_bits": bits, "atomic": addFn, "step": step, "base": base}
 
 	facts["httpd.MethodAll"] = methodAll
 	facts["httpd.methodTagMap"] = table
 	facts["httpd.routeParam"] = rp
 	facts["httpd.routeParamAny"] = ra
+}
+
+func httpdBitsOf(name string) int {
+	switch {
+	case strings.HasSuffix(name, "64"):
+		return 64
+	case strings.HasSuffix(name, "32"):
+		return 32
+	}
+	return 0
+}
+
+// httpdIDCounter reads the declaration of Mux.storeID and the one place in ServeHTTP where the id is drawn.
+func httpdIDCounter(f *ast.File) (bits int, addFn string, step int64, base int64) {
+	ast.Inspect(f, func(n ast.Node) bool {
+		ts, ok := n.(*ast.TypeSpec)
+		if !ok || ts.Name.Name != "Mux" {
+			return true
+		}
+		st, ok := ts.Type.(*ast.StructType)
+		if !ok {
+			return false
+		}
+		for _, fl := range st.Fields.List {
+			for _, nm := range fl.Names {
+				if nm.Name == "storeID" {
+					if id, ok := fl.Type.(*ast.Ident); ok {
+						bits = httpdBitsOf(id.Name)
+						if id.Name == "uint" || id.Name == "int" || id.Name == "uintptr" {
+							bits = 0
+						}
+					}
+				}
+			}
+		}
+		return false
+	})
+	if bits == 0 {
+		die("httpd/httpd.go: Mux.storeID is not a fixed-width 32/64-bit integer field")
+	}
+	fn := findFunc(f, "Mux", "ServeHTTP")
+	if fn == nil {
+		die("httpd/httpd.go: Mux.ServeHTTP not found")
+	}
+	found := 0
+	ast.Inspect(fn.Body, func(n ast.Node) bool {
+		call, ok := n.(*ast.CallExpr)
+		if !ok {
+			return true
+		}
+		sel, ok := call.Fun.(*ast.SelectorExpr)
+		if !ok {
+			return true
+		}
+		pkg, _ := sel.X.(*ast.Ident)
+		if pkg != nil && pkg.Name == "strconv" && sel.Sel.Name == "AppendUint" && len(call.Args) == 3 {
+			inner, ok := call.Args[1].(*ast.CallExpr)
+			if !ok {
+				return true
+			}
+			if _, conv := inner.Fun.(*ast.Ident); conv && len(inner.Args) == 1 { // uint64(atomic.Add…(…)): look inside the conversion
+				if in2, ok := inner.Args[0].(*ast.CallExpr); ok {
+					inner = in2
+				}
+			}
+			isel, ok := inner.Fun.(*ast.SelectorExpr)
+			if !ok || len(inner.Args) != 2 {
+				return true
+			}
+			ipkg, _ := isel.X.(*ast.Ident)
+			if ipkg == nil || ipkg.Name != "atomic" {
+				return true
+			}
+			un, ok := inner.Args[0].(*ast.UnaryExpr)
+			if !ok {
+				return true
+			}
+			fsel, ok := un.X.(*ast.SelectorExpr)
+			if !ok || fsel.Sel.Name != "storeID" {
+				return true
+			}
+			st, ok1 := evalInt(inner.Args[1])
+			bs, ok2 := evalInt(call.Args[2])
+			if !ok1 || !ok2 {
+				die("httpd/httpd.go: the id counter's step or base is not an integer constant")
+			}
+			addFn, step, base = isel.Sel.Name, st, bs
+			found++
+		}
+		return true
+	})
+	if found != 1 {
+		die("httpd/httpd.go: ServeHTTP does not draw the id as strconv.AppendUint(id, atomic.Add…(&mux.storeID, n), base) exactly once (found %d)", found)
+	}
+	return
 }
